@@ -408,7 +408,11 @@ def cli_cases(arg):
                     out["violations"].append({"key": "C15:cli-traceback", "msg": "%s: cond %s printed a traceback\n%s" % (case["why"], " ".join(argv), r.err[-500:]), "witness": W})
                     continue
                 if case["expect"]:
-                    if r.code != 0:
+                    if r.code != 0 and not check and "terminated with a non-zero error code" in r.err and "Traceback" not in r.err:
+                        # the definition was accepted and the task was started; that its (generated) command line fails
+                        # says nothing about the definition
+                        R["c15_cli_accepted_but_command_failed"] = R.get("c15_cli_accepted_but_command_failed", 0) + 1
+                    elif r.code != 0:
                         out["violations"].append({"key": "C15:well-formed-definition-rejected", "msg": "%s: cond %s exit %s: %s" % (case["why"], " ".join(argv), r.code, r.err[-300:]), "witness": W})
                     elif check:
                         R["c15_check_runs_nothing"] = R.get("c15_check_runs_nothing", 0) + 1
